@@ -596,7 +596,7 @@ func checkC20Titles(c *Ctx) {
 			// table lookup result: must be guarded by len(Title) != 0
 			guarded := false
 			for _, f := range dominatingFacts(r.Block()) {
-				if isLenTitleZero(f.Cond, titleF) && !f.Val {
+				if titleNonEmpty(f, titleF) {
 					guarded = true
 				}
 			}
@@ -661,6 +661,42 @@ func literalText(f string) string {
 		b.WriteByte(f[i])
 	}
 	return strings.TrimSpace(b.String())
+}
+
+// titleNonEmpty: the fact says that the Title field of the entry is not the empty string
+// (len(Title) compared with a constant, or Title compared with "").
+func titleNonEmpty(f EdgeFact, titleF *types.Var) bool {
+	b, ok := f.Cond.(*ssa.BinOp)
+	if !ok {
+		return false
+	}
+	if fv, _ := loadedField(b.X); fv == titleF {
+		if s, isC := constString(b.Y); isC && s == "" {
+			return (b.Op == token.NEQ && f.Val) || (b.Op == token.EQL && !f.Val)
+		}
+		return false
+	}
+	call, ok := b.X.(*ssa.Call)
+	if !ok {
+		return isLenTitleZero(f.Cond, titleF) && !f.Val
+	}
+	if bi, ok := call.Call.Value.(*ssa.Builtin); !ok || bi.Name() != "len" {
+		return false
+	}
+	if fv, _ := loadedField(call.Call.Args[0]); fv != titleF {
+		return false
+	}
+	k, isC := constInt(b.Y)
+	if !isC {
+		return false
+	}
+	switch {
+	case b.Op == token.EQL && k == 0 && !f.Val, b.Op == token.NEQ && k == 0 && f.Val,
+		b.Op == token.GTR && k == 0 && f.Val, b.Op == token.GEQ && k == 1 && f.Val,
+		b.Op == token.LEQ && k == 0 && !f.Val, b.Op == token.LSS && k == 1 && !f.Val:
+		return true
+	}
+	return false
 }
 
 func isLenTitleZero(cond ssa.Value, titleF *types.Var) bool {
